@@ -150,4 +150,4 @@ MANIFEST["level_note"] += (" Suite `signed` (oracle-free, no model): correctly s
 CHECK["theorems"] = list(CHECK["theorems"]) + ['c01_no_panic_tsig']
 MANIFEST["level_note"] += (" `c01_no_panic_tsig` (Proofs/SignFinishP.v, SignSerP.v, SignTopP.v): the extended composed model never "
                            "panics for EVERY verifier (signed BADTIME responses; verified requests answered NOTIMP / REFUSED / SERVFAIL / "
-                           "FORMERR with a signed TSIG record) and every hmac returning an octet string of the algorithm's output size.")
+                           "FORMERR with a signed TSIG record) and every hmac whose output has the algorithm's output size (the only fact about HMAC used).")
